@@ -27,6 +27,12 @@ def run(repo, chk):
     need(n >= 3, f'C09.f: only {n} shared obligations found')
 
 
+def _expiry_view(t):
+    """`deadline = self.expiry` read once at the top is analysed as the attribute (common.snapshot_view: nothing that moves the expiry lies between)."""
+    from .common import snapshot_view
+    return snapshot_view(t)
+
+
 def _run(repo, chk):
     chk.not_decided = ['numeric timing; datetime deadlines are rounded by mktime/timetuple (whole seconds)',
                        'that the OS wait does not return late']
@@ -38,6 +44,7 @@ def _run(repo, chk):
                       'blocking form is chosen only for a negative budget')
     t = repo.func(TIMERS, 'Timer._on_generate_events')
     chk.touch(t)
+    t = _expiry_view(t)
     chk.ob('a', t.ref, 'the timer runs in the generate_events pass of every loop iteration', t.handler is not None and
            'generate_events' in t.handler.names, loc(t, t.node), discr='is-generate-events-handler', nontrivial=False)
     g = t.cfg()
